@@ -171,6 +171,8 @@ type Engine struct {
 	marshalMemo                  map[string]string
 	dhPairs                      [][2]string
 	macKeys                      []string
+	dialScript                   []any
+	dialNext                     int
 }
 
 // resetPath prepares the engine for one deterministic re-execution along the decision prefix.
@@ -190,6 +192,7 @@ func (e *Engine) resetPath(prefix []decision) {
 	e.pendingSleep = ""
 	e.cut = nil
 	e.randSyms, e.dhPairs, e.macKeys, e.marshalMemo = nil, nil, nil, map[string]string{}
+	e.dialScript, e.dialNext = nil, 0
 	e.schedInit()
 	onceDone, syncMaps, mutexes = map[*any]bool{}, map[*any]*MapV{}, map[*any]*MutexV{}
 	b64Of = map[string]string{}
@@ -699,7 +702,7 @@ func (e *Engine) global(g *ssa.Global) Ptr {
 }
 
 func (e *Engine) call(fn *ssa.Function, args []any, bind []any) any {
-	for _, st := range [](func(*ssa.Function, []any) (any, bool)){e.stubOS, e.stub9, e.stub8, e.stub7, e.stub6, e.stub5, e.stub4, e.stub3, e.stub2, e.stub} {
+	for _, st := range [](func(*ssa.Function, []any) (any, bool)){e.stubDial, e.stubOS, e.stub9, e.stub8, e.stub7, e.stub6, e.stub5, e.stub4, e.stub3, e.stub2, e.stub} {
 		if r, ok := st(fn, args); ok {
 			if fn.Name() != "init" && !(fn.Pkg != nil && strings.HasSuffix(fn.Pkg.Pkg.Path(), "/zzverif/vf")) {
 				e.models[fn.String()] = true
